@@ -409,8 +409,17 @@ def s06_snappass(ctx):
         reqs.append(f"snappass t={rat(c['t'])} areas={area_rows([area])} traces={lines(ex)}")
         reqs.append(f"snaploop t={rat(c['t'])} allowed=10 areas={area_rows([area])} traces={lines(ex)}")
     resps = ctx.driver.parallel(reqs)
+    # translator validation: the REGENERATED snap_traces (gen_c06) must give the model's pass on the same input
+    gresps = ctx.gen.parallel(["g" + r_ for r_ in reqs[0::2]]) if ctx.gen is not None else None
+    if gresps is None:
+        res.skipped["generated_driver_not_built"] = 1
     for i, c in enumerate(cases):
         d, tags = _compare_snap(ctx, c, resps[2 * i], resps[2 * i + 1])
+        if gresps is not None:
+            res.distribution["regenerated_pass_compared"] = res.distribution.get("regenerated_pass_compared", 0) + 1
+            if gresps[i].strip() != resps[2 * i].split(" crisp=")[0].strip():
+                res.disagreements.append(Disagreement("S06-snappass", {"stream": "S06-snappass", "request": "g" + reqs[2 * i]}, resps[2 * i][:400], gresps[i][:400], None,
+                                                      "the regenerated snap_traces (Lean) and the hand-written pass model disagree"))
         res.evaluations += 1
         if "pass_changed" in tags:
             res.nontrivial += 1
